@@ -17,19 +17,19 @@ CHECKS = {
     "C04": ("3/C04", "symbolic execution of the CVaR filter: real-mode NRA obligations over values/flags/percentile plus a Float64 (z3 FP theory) run of int(p*n) for every double p", ""),
     "C05": ("3/C05", "symbolic execution of the sort filter (argsort forks over orders); tie-robust rank-window obligations decided by z3", ""),
     "C13": ("3/C13", "symbolic execution of ConstraintInfo.create/__post_init__/transform_from_optimizer and the feasibility test; linear/bilinear obligations decided by z3", ""),
-    "C12": ("3/C12", "symbolic execution of the tracker handler on real result/event objects with symbolic objectives, violations and tolerance; bounded histories plus one step from an arbitrary valid state; LRA obligations decided by z3", ""),
+    "C12": ("3/C12", "symbolic execution of the tracker handler on real result/event objects with symbolic objectives, violations and tolerance; bounded histories plus one step from an arbitrary valid state, and BasicOptimizer end to end with a scripted algorithm (symbolic objective, NaN flag and constraint value per evaluation); LRA obligations decided by z3", ""),
     "C14": ("3/C14", "symbolic execution of real plans (default optimizer/evaluator steps, scripted optimizer) with symbolic failure flags and a symbolic max_functions; exit code and stop point compared with a reference state machine; z3", ""),
     "C15": ("3/C15", "symbolic execution of real plans with the abort point (who raises, at which event or evaluator call) as solver integers; recorded event streams checked for bracketing, exactly-once ordered delivery and abort latching; z3 decides path feasibility (finite domains: equals exhaustive exploration of the bounded schedule space)", ""),
     "C19": ("3/C19", "symbolic execution of PluginManager lookups on a bounded symbolic string (character codes and length are z3 integers; dict/set membership forks over the registry's constants); result compared with a reference lookup formula; z3", ""),
     "C18": ("3/C18", "symbolic execution of the configuration classes' own model validators (called directly on objects holding symbolic arrays: normalisation, clamping, bound checks, perturbation canonicalisation applied twice) decided by z3; plus complete traversal of real validated configurations for frozenness and dump/validate round trips", "Partial: pydantic-core's coercion is not encoded."),
     "C16": ("3/C16", "self-composition: the sampler/evaluator code is executed symbolically twice with the same seed and different hidden environments; every random draw is a solver variable indexed by (stream, draw number) or a havoc variable; request equality decided by z3", "Partial: non-interference of ropt's own code; traces through real SciPy/NumPy generators are not claimed."),
     "C20": ("3/C20", "symbolic execution of ExternalOptimizer.start against stubbed process/pipe/signal primitives under a symbolic life schedule (death point, return code, callback failure point, write/read retries are solver integers); outcome obligations decided per path, z3 decides feasibility; plus a loopback of both real protocol halves (ExternalOptimizer.start against _PluginOptimizer.run over queues) compared with the in-process run of the same scripted algorithm on symbolic points, values and NaN flags, and the real pipe communicator on a FIFO model of symbolic capacity", "Partial: trace equality is decided for scripted algorithms, not for real SciPy runs; the kernel's FIFO, signals and timing are modelled, not executed."),
-    "C11": ("3/C11", "differential symbolic execution: the same user-domain problem through ropt with and without symbolic scaling transforms (validators called directly with the transforms as context); equality/equivalence obligations in non-linear real arithmetic decided by z3 (case split, denominator clearing)", ""),
+    "C11": ("3/C11", "differential symbolic execution: the same user-domain problem through ropt with and without symbolic scaling transforms (validators called directly with the transforms as context, the public model_validate(dict, context=...) and the BasicOptimizer route as well); equality/equivalence obligations in non-linear real arithmetic decided by z3 (case split, denominator clearing)", ""),
     "C17": ("3/C17", "symbolic execution of SciPySampler with the SciPy distributions/QMC engines stubbed by fresh symbols (every drawn number is a solver variable); entry-identity obligations decided by z3", ""),
     "C06": ("3/C06", "symbolic execution of the evaluator-request layer with a distinct solver variable per evaluator number; label/identity obligations and garbage-invariance by self-composition decided by z3", ""),
     "C09": ("3/C09", "symbolic execution of EnsembleOptimizer/EnsembleEvaluator with a scripted optimizer, every mask enumerated and the fixed variables' values symbolic; identity obligations decided by z3", ""),
     "C08": ("3/C08", "symbolic execution of SciPyOptimizer construction/start with scipy.optimize replaced by recorders; feasibility-equivalence and Jacobian-sign obligations over symbolic bounds, values and rows decided by z3", ""),
-    "C07": ("3/C07", "symbolic execution of the callables SciPy would receive under a request script whose steps (which callable, which pool point) are solver variables; returned values compared with the per-point symbols; z3", ""),
+    "C07": ("3/C07", "symbolic execution of the callables SciPy would receive under a request script whose steps (which callable, which pool point) are solver variables; returned values compared with the per-point symbols; behind the callback the real EnsembleOptimizer/EnsembleEvaluator on single points and batches with symbolic affine realizations; z3", ""),
     "C10": ("3/C10", "symbolic execution of fix_perturbations + _perturb_variables/_apply_bounds through EnsembleEvaluator.calculate; linear/bilinear obligations decided by z3", ""),
     "C01": ("3/C01", "symbolic execution of EnsembleEvaluator.calculate on z3-backed arrays; per-path NRA obligations decided by z3 (cvc5 cross-check)", ""),
 }
